@@ -177,7 +177,7 @@ def run(ctx):
         nf = ctx.n(60, 3000)
         tcases = os.path.join(tmp, "tool_cases.txt")
         rc, so2, e = sh2([exe, "files", "-seed", str(ctx.seed), "-n", str(nf), "-bin", tool, "-tmp", os.path.join(tmp, "files"),
-                          "-o", tcases], timeout=3200)
+                          "-o", tcases, "-casefiles", str(ctx.n(60, 600))], timeout=3200)
         if rc != 0:
             raise common.CheckError("harness files failed: " + (so2 + e)[-1000:])
         # whole-tool correspondence: the extracted model (C10TreeModel.crop_tool: C01's decoder on the input bytes -> tables read
@@ -203,7 +203,7 @@ def run(ctx):
             "hypotheses_of_C10_output_decodes_on_the_successful_cases": hyps,
             "compared": "outcome class ok|err|panic; on ok every byte of the output file; the model's encoded length of the non-mdat "
                         "boxes against the sizeWithoutMdat that shifted the chunk offsets",
-            "distribution": "every run of the whole-tool search (synthesized files x ~11 durations) + a malformed stream: a copy of every "
+            "distribution": "every run of the whole-tool search on the first %d files (synthesized files x ~11 durations) + a malformed stream: a copy of every " % ctx.n(60, 600) +
                             "second file with one byte changed inside the values of stts/ctts/stsc/stsz/stco/co64/stss/sdtp/elst (behind "
                             "the count) or tkhd/mvhd/mdhd (behind version/flags), 3 durations each",
         }
